@@ -578,6 +578,7 @@ func checkC11(c *Ctx) {
 	c.Clause("a Backend's identity and forwarding machinery (Name, URL, ReverseProxy, Weight) are never stored after the backend was published: a request that picked it just before a removal is still served through it")
 	c.Clause("the balancer and strategy locks are never re-acquired while held (a recursive read lock deadlocks as soon as an admin write queues between the two acquisitions) and are acquired in a consistent order")
 	c.Clause("RemoveBackend looks the name up and removes it in one write-locked critical section; AddBackend accepts only an http(s) URL with a host (anything else is an error before any state changes)")
+	c.Clause("AddBackend refuses a name that is already listed (an error, nothing changed): 'no backend of that name' is about one backend")
 	c.NotDecided("linearizability of concurrent histories beyond mutual exclusion; that in-flight requests complete")
 
 	lockOrder(c, "LoadBalancer.mutex", "Strategy.mutex", "Strategy.mu")
@@ -843,6 +844,7 @@ func checkC11(c *Ctx) {
 	}
 	c11OwnMachinery(c)
 	c.backendAddressUsable()
+	c.backendNamesUnique()
 	// 5. admin handlers
 	nm := p.Fn("internal/adminapi", "", "NewMux")
 	if nm == nil {
